@@ -31,6 +31,11 @@ WHITE, GRAY, BLACK = 0, 1, 2
 
 def key_table(seed, m):
     """Ordered key alphabet; the seed only changes the numeric embedding."""
+    if m == "fmax":      # the heap's own default cost as a key value
+        import sys
+        return (0.0, 1.0, sys.float_info.max)
+    if m == "inf":
+        return (0.0, 1.0, float("inf"))
     if seed == 0:
         return tuple(float(i) for i in range(m))
     import random
@@ -54,6 +59,7 @@ DEEP = {"quick": [(6, 2), (7, 2), (8, 2), (9, 2)], "thorough": [(6, 3), (7, 3), 
 
 def bounds(tier):
     return {"capacity_x_keys": CONFIGS[tier], "policies": ["min", "max"],
+            "extreme_keys": "capacities 2..4 with key alphabets {0, 1, FLOAT_MAX} and {0, 1, +inf}",
             "depth": "fixpoint (finite DAG)",
             "from_every_valid_heap": ["all %d heap arrangements of %d distinct keys (capacity %d), every "
                                       "operation sequence of length <= %d" % (len(valid_heaps(n)), n, n + 1, d)
@@ -96,6 +102,11 @@ def plan(tier, seed):
             shards.append((policy, cap, m))
     # biggest first for load balance
     shards.sort(key=lambda s: -(s[1] * 10 + s[2]))
+    # extreme key values: FLOAT_MAX (the default cost of an element never given one) and +inf
+    for cap in (2, 3, 4):
+        for policy in ("min", "max"):
+            shards.append((policy, cap, "fmax"))
+            shards.append((policy, cap, "inf"))
     # start from non-initial states too: every valid heap arrangement of n distinct keys,
     # built through real inserts, then every operation sequence up to a depth
     for n, depth in DEEP[tier]:
